@@ -46,6 +46,12 @@ var commonAssumptions = []string{
 
 func init() {
 	register(&Def{
+		ID: "C17", Level: "exploration", MinSigs: 30,
+		Rule:        "at checkpoints of mixed histories (transfers over 4 channels, pauses of protocols/cross-chains/actions, parameter updates): ExportGenesis -> ValidateGenesis -> wipe the orbiter store on a branch -> InitGenesis (recover()) -> ExportGenesis must reproduce the same document and the same raw store (indexes included), and a fixed probe set (every calibrated destination, with/without fee, passthrough at limit+-1) must give identical acknowledgements, ledger and statistics deltas on the original and the re-imported state; for some checkpoints additionally a fresh chain is initialised by InitChain with the exported genesis and compared the same way. Generated documents = every single-point mutation of an exported genesis (delete, null, repeated/reversed/appended list elements, boundary and hostile identifiers, NUL/separator characters, integer extremes): accepted by ValidateGenesis => InitGenesis succeeds. distinct = checkpoint shapes and (mutation class, outcome)",
+		Assumptions: commonAssumptions,
+		Run:         withLab(world.Config{Channels: 4}, CheckC17),
+	})
+	register(&Def{
 		ID: "C16", Level: "exploration", MinSigs: 40,
 		Rule:        "systematic: denomination grammar (native, one-hop, multi-hop incl. a genuine two-hop voucher whose ibc/ denom really sits in the escrow, other port/channel prefixes, ibc/ hashes, empty segments, leading/trailing/double slashes, factory-style natives, invalid characters, wrong case) x every source end (2 channel pairs) x 14 amount encodings, each through the bare middleware (mode C) and the real core handler (mode H), plus PRNG compositions of path segments; oracle: accepted => the packet denom is <source port>/<source channel>/<native base>, and the coin ICS-20 released from escrow (ledger) = the coin credited to the internal recipient = the coin recorded in the statistics (denom and amount); canonical returning natives must be accepted. distinct = (source end, denom class, amount class, outcomes in both modes)",
 		Assumptions: commonAssumptions,
